@@ -106,7 +106,10 @@ class C18(Prop):
         "output ports (STEP granularity); per JOB (step, tag) a job token is in the graph only if the job is the failed one "
         "or one of its own outputs is lost; the tokens _inject_tokens injects are available graph tokens and those handed to "
         "Step.restore (ScatterStep's valid tags) are unavailable graph tokens of the port; GraphMapper's add/move_token_to_root/replace_token/remove_port keep both graphs mirror-consistent, "
-        "token_availability and token_instances with the same keys and every listed token under its own single port. "
+        "token_availability and token_instances with the same keys and every listed token under its own single port; "
+        "_synchronize_workflows (mapper side) keeps that consistency, detaches everything a job recovered elsewhere had "
+        "produced and only removes ports, so the step-selection statement covers the whole path build_graph -> "
+        "create_graph_mapper -> _synchronize_workflows -> get_step_ids. "
         "Engine level (exercised, not proved): real workflows (scatter/gather and pipelines) run on the local deployment "
         "with injected soft or data-losing failures (also two concurrent ones sharing a producer of lost data) and real "
         "RollbackFailureManager recovery; every job executed more than once must be a failing job or have its job token in "
@@ -132,7 +135,8 @@ class C18(Prop):
             "1..3 provenance levels up, one or two failures; plan: layered workflows (2..5 layers, 1..3 steps per layer, "
             "job steps with a private job port fed by a schedule step, 1..3 tags), random availability / recovering flags, "
             "failed job = a job step and tag; some with duplicate ('re-executed') tokens, some soft failures, some "
-            "unrecoverable; mapper: sequences of GraphMapper.add / move_token_to_root / replace_token / remove_port over "
+            "unrecoverable; sync: provenance-shaped mappers (2..5 jobs) built by GraphMapper.add in shuffled order, then the "
+            "real _synchronize_workflows with a random subset of the jobs being recovered elsewhere; mapper: sequences of GraphMapper.add / move_token_to_root / replace_token / remove_port over "
             "<=12 token ids sharing (port, tag). Non-trivial = engine run with a failure, plan with >=1 lost input, mapper "
             "sequence with >=1 replace/move. Distinct = distinct canonical JSON.")
     TRUSTED = ("models: ProvGraph/Model.v, Graph/Model.v are hand-written; function-level cases replace SQLite by a stub "
@@ -142,7 +146,7 @@ class C18(Prop):
     ASSUMPTIONS = ("token ids are positive; a port holds either only JobTokens or none",
                    "is_available / is_recovering answers do not change during one build_graph call",
                    "engine runs: availability of a token = its recoverable flag and, for files, presence on the local file system")
-    MAX_WORKERS = 6
+    MAX_WORKERS = 4
     COQ_SHARD = 120
     CASE_TIMEOUT = 240
     SHARD_TIMEOUT = 1500
@@ -294,9 +298,40 @@ class C18(Prop):
                 sc["fail"]["wait_siblings"] = sc["width"] if sc["shape"] == "scatter" and sc["fail"]["step"] == "/b" else 0
         return [{"f": "engine", **sc} for sc in scen]
 
+    def _sync(self, rng):
+        """a provenance-shaped mapper (jobs with input, job token, output; outputs feeding later jobs) and a set of
+        jobs that another recovery workflow is already recovering: drives the real _synchronize_workflows"""
+        k = rng.randrange(2, 6)
+        tid = [0]
+
+        def tok(port, job, avail):
+            tid[0] += 1
+            return {"id": tid[0], "port": port, "port_id": port, "tag": 0, "job": job, "avail": avail}
+
+        adds, jobtoks, prev_out = [], [], []
+        src = tok(1, None, True)
+        for i in range(k):
+            x = rng.choice(prev_out) if prev_out and rng.random() < 0.8 else src
+            j = tok(10 + i, i + 1, False)
+            outs = [tok(30 + 10 * i + q, None, rng.random() < 0.3) for q in range(rng.randrange(1, 3))]
+            for o in outs:
+                adds.append(["add", x, o])
+                adds.append(["add", j, o])
+            if rng.random() < 0.5:
+                adds.append(["add", x, j])
+            jobtoks.append(j)
+            prev_out.extend(outs)
+        rng.shuffle(adds)
+        rec = [j["job"] for j in jobtoks if rng.random() < 0.45]
+        order = [j["job"] for j in jobtoks]
+        rng.shuffle(order)
+        return {"f": "sync", "ops": adds, "recovering": rec, "order": order}
+
     def gen(self, rng, tier):
         n = {"quick": 400, "thorough": 4000, "extended": 2500}[tier]
         cases = self._engine(rng, tier)
+        for _ in range({"quick": 40, "thorough": 400, "extended": 250}[tier]):
+            cases.append(self._sync(rng))
         while len(cases) < n:
             c = self._plan(rng) if len(cases) % 5 != 4 else self._mapper(rng)
             if c:
@@ -403,6 +438,62 @@ class C18(Prop):
             steps.append(self._mobs(m))
         return {"steps": steps}
 
+    async def _run_sync(self, c):
+        from streamflow.core.workflow import Status
+        from streamflow.recovery.failure_manager import RollbackFailureManager
+        from streamflow.workflow.token import JobToken
+
+        m = self.ru.GraphMapper(None)
+        try:
+            for op in c["ops"]:
+                m.add(self._ptok(op[1]), self._ptok(op[2]) if op[2] else None)
+        except Exception as e:  # noqa
+            return {"build_err": self._err(e)}
+        rec = {jname(j) for j in c["recovering"]}
+        notified = []
+
+        class _Sched:
+            def get_allocation(self, name):
+                return SimpleNamespace(status=Status.RUNNING if name in rec else Status.COMPLETED)
+
+            async def notify_status(self, name, status):
+                notified.append(name)
+
+        class _Port:
+            def __init__(self, name):
+                self.name = name
+
+            def add_inter_port(self, port, boundary_tags, boundary_action):
+                pass
+
+        class _Ports(dict):
+            def __missing__(self, k):
+                self[k] = _Port(k)
+                return self[k]
+
+        class _Wf:
+            def __init__(self):
+                self.ports = _Ports()
+
+            def create_port(self, cls=None, name=None):
+                self.ports[name] = _Port(name)
+                return self.ports[name]
+
+        fm = RollbackFailureManager(SimpleNamespace(scheduler=_Sched()))
+        job_tokens = [t for t in m.token_instances.values() if isinstance(t, JobToken)]
+        present = {t.value.name for t in job_tokens}
+        names = [jname(j) for j in c["order"] if jname(j) in present] + ["/failed/0"]
+        requests = [fm.get_request(nm) for nm in names]
+        for r in requests:
+            r.workflow = _Wf()
+        jts = [next(t.persistent_id for t in job_tokens if t.value.name == nm) for nm in names if nm in rec]
+        try:
+            await fm._synchronize_workflows(failed_job="/failed/0", job_tokens=job_tokens, mapper=m,
+                                            retry_requests=requests, workflow=_Wf())
+        except Exception as e:  # noqa
+            return {"jts": jts, "after": {"err": self._err(e)}}
+        return {"jts": jts, "after": self._mobs(m), "rolled_back": sorted(notified)}
+
     def _run_engine(self, c):
         import os
         import shutil
@@ -434,6 +525,8 @@ class C18(Prop):
     def impl_run(self, c):
         if c["f"] == "engine":
             return self._run_engine(c)
+        if c["f"] == "sync":
+            return asyncio.run(self._run_sync(c))
         if c["f"] == "plan":
             return asyncio.run(self._run_plan(c))
         return self._run_mapper(c)
@@ -590,6 +683,12 @@ class C18(Prop):
             ports = coq_list([f"({coq_N(a)},{coq_N(b)})" for a, b in c["ports"]])
             return (f"CPlan {coq_list([self._tok(t) for t in c['db']])} {ns(c['inputs'])} {steps} {ports} "
                     f"{ns(c['out_names'])} {bt} {mt} {st} {it}")
+        if c["f"] == "sync":
+            if "build_err" in o:
+                return None
+            adds = [f"(MAdd {self._pinfo(op[1])} " + ("None" if op[2] is None else f"(Some {self._pinfo(op[2])})") + ")"
+                    for op in c["ops"]]
+            return f"CSync {coq_list(adds)} {ns(o['jts'])} {self._mobs_term(o['after'])}"
         terms = []
         for op, s in zip(c["ops"], o["steps"]):
             if op[0] == "add":
@@ -607,6 +706,8 @@ class C18(Prop):
     def nontrivial(self, c):
         if c["f"] == "engine":
             return c["fail"] is not None
+        if c["f"] == "sync":
+            return bool(c["recovering"])
         if c["f"] == "plan":
             tok = {t["id"]: t for t in c["db"]}
             return any(not tok[i]["avail"] for i in c["inputs"])
